@@ -741,6 +741,142 @@ fn history_f64(case: &mut Case) -> Result<(), String> {
     Ok(())
 }
 
+// ------------------------------------------------------------------ machine number types (f64, i64) on integer data
+trait MachM: Copy + ohsl::Number + ohsl::Signed + std::ops::Neg<Output = Self> + std::fmt::Debug + PartialEq + 'static {
+    const NAME: &'static str;
+    fn from_i(v: i64) -> Self;
+}
+impl MachM for f64 {
+    const NAME: &'static str = "f64";
+    fn from_i(v: i64) -> Self {
+        v as f64
+    }
+}
+impl MachM for i64 {
+    const NAME: &'static str = "i64";
+    fn from_i(v: i64) -> Self {
+        v
+    }
+}
+
+/// The arithmetic of `algebra` for `Matrix<f64>` and `Matrix<i64>` on small integers (every result exact, i64 model):
+/// another instantiation of the generic code may take another path (a fast path chosen by element size, say).
+fn algebra_machine<T: MachM>(case: &mut Case) -> Result<(), String> {
+    let (r, k, c) = (case.src.usize_below(9), case.src.usize_below(9), case.src.usize_below(9));
+    let gen = |src: &mut Src, r: usize, c: usize| -> Vec<Vec<i64>> { (0..r).map(|_| (0..c).map(|_| src.small_int(9)).collect()).collect() };
+    let a = gen(&mut case.src, r, k);
+    let a2 = gen(&mut case.src, r, k);
+    let b = gen(&mut case.src, k, c);
+    let v: Vec<i64> = (0..k).map(|_| case.src.small_int(9)).collect();
+    let s = case.src.small_int(7);
+    let mk = |m: &Vec<Vec<i64>>, r: usize, c: usize| -> Matrix<T> {
+        let mut x = Matrix::<T>::new(r, c, T::from_i(0));
+        for i in 0..r {
+            for j in 0..c {
+                x[(i, j)] = T::from_i(m[i][j]);
+            }
+        }
+        x
+    };
+    let eq = |m: &Matrix<T>, e: &Vec<Vec<i64>>, r: usize, c: usize, what: &str| -> Result<(), String> {
+        if m.rows() != r || m.cols() != c {
+            return Err(format!("{} {}: shape {}x{}, expected {}x{}", T::NAME, what, m.rows(), m.cols(), r, c));
+        }
+        for i in 0..r {
+            for j in 0..c {
+                if m[(i, j)] != T::from_i(e[i][j]) {
+                    return Err(format!("{} {}: entry ({},{}) = {:?}, expected {}", T::NAME, what, i, j, m[(i, j)], e[i][j]));
+                }
+            }
+        }
+        Ok(())
+    };
+    let zip = |x: &Vec<Vec<i64>>, y: &Vec<Vec<i64>>, f: &dyn Fn(i64, i64) -> i64| -> Vec<Vec<i64>> { x.iter().zip(y).map(|(p, q)| p.iter().zip(q).map(|(u, w)| f(*u, *w)).collect()).collect() };
+    let map = |x: &Vec<Vec<i64>>, f: &dyn Fn(i64) -> i64| -> Vec<Vec<i64>> { x.iter().map(|p| p.iter().map(|u| f(*u)).collect()).collect() };
+    case.class(format!("{} algebra {}", T::NAME, if r == k && k == c { "square" } else { "rectangular" }));
+    if r != k && k != c && r > 0 && k > 0 && c > 0 {
+        case.mark_nontrivial();
+    }
+    case.describe(|| format!("{} algebra A={:?} A2={:?} B={:?} v={:?} s={}", T::NAME, a, a2, b, v, s));
+    let (ma, ma2, mb) = (mk(&a, r, k), mk(&a2, r, k), mk(&b, k, c));
+    let vv = Vector::<T>::create(v.iter().map(|x| T::from_i(*x)).collect());
+    eq(&(&ma + &ma2), &zip(&a, &a2, &|p, q| p + q), r, k, "&A + &A2")?;
+    eq(&(ma.clone() + ma2.clone()), &zip(&a, &a2, &|p, q| p + q), r, k, "A + A2")?;
+    eq(&(&ma - &ma2), &zip(&a, &a2, &|p, q| p - q), r, k, "&A - &A2")?;
+    eq(&(ma.clone() - ma2.clone()), &zip(&a, &a2, &|p, q| p - q), r, k, "A - A2")?;
+    eq(&(-&ma), &map(&a, &|p| -p), r, k, "-&A")?;
+    eq(&(-ma.clone()), &map(&a, &|p| -p), r, k, "-A")?;
+    eq(&(&ma * T::from_i(s)), &map(&a, &|p| p * s), r, k, "&A * s")?;
+    eq(&(ma.clone() * T::from_i(s)), &map(&a, &|p| p * s), r, k, "A * s")?;
+    {
+        let mut m = ma.clone();
+        m += &ma2;
+        eq(&m, &zip(&a, &a2, &|p, q| p + q), r, k, "A += &A2")?;
+        m -= ma2.clone();
+        eq(&m, &a, r, k, "(A += &A2) -= A2")?;
+        m -= &ma2;
+        m += ma2.clone();
+        eq(&m, &a, r, k, "(A -= &A2) += A2")?;
+        m *= T::from_i(s);
+        eq(&m, &map(&a, &|p| p * s), r, k, "A *= s")?;
+        m += T::from_i(s);
+        eq(&m, &map(&a, &|p| p * s + s), r, k, "A += s")?;
+        m -= T::from_i(s);
+        eq(&m, &map(&a, &|p| p * s), r, k, "A -= s")?;
+        if s != 0 {
+            m /= T::from_i(s);
+            eq(&m, &a, r, k, "(A *= s) /= s")?;
+            eq(&(&(&ma * T::from_i(s)) / T::from_i(s)), &a, r, k, "(&A * s) / s")?;
+            eq(&((ma.clone() * T::from_i(s)) / T::from_i(s)), &a, r, k, "(A * s) / s (owned)")?;
+        }
+    }
+    // products
+    let mut ab = vec![vec![0i64; c]; r];
+    for i in 0..r {
+        for j in 0..c {
+            ab[i][j] = (0..k).map(|l| a[i][l] * b[l][j]).sum();
+        }
+    }
+    eq(&(&ma * &mb), &ab, r, c, "&A * &B")?;
+    eq(&(ma.clone() * mb.clone()), &ab, r, c, "A * B")?;
+    let av: Vec<i64> = (0..r).map(|i| (0..k).map(|l| a[i][l] * v[l]).sum()).collect();
+    for (what, got) in [("&A * &v", &ma * &vv), ("A * v", ma.clone() * vv.clone()), ("A.multiply(&v)", ma.multiply(&vv))] {
+        if got.vec.len() != r || got.vec.iter().zip(&av).any(|(g, e)| *g != T::from_i(*e)) {
+            return Err(format!("{} {} = {:?}, expected {:?}", T::NAME, what, got.vec, av));
+        }
+    }
+    // transposes
+    let at: Vec<Vec<i64>> = (0..k).map(|j| (0..r).map(|i| a[i][j]).collect()).collect();
+    eq(&ma.transpose(), &at, k, r, "transpose()")?;
+    {
+        let mut m = ma.clone();
+        m.transpose_in_place();
+        eq(&m, &at, k, r, "transpose_in_place()")?;
+        m.transpose_in_place();
+        eq(&m, &a, r, k, "transpose_in_place() twice")?;
+    }
+    // rows and columns
+    for i in 0..r {
+        if ma.get_row(i).vec.iter().zip(&a[i]).any(|(g, e)| *g != T::from_i(*e)) || ma.get_row(i).vec.len() != k {
+            return Err(format!("{} get_row({}) = {:?}", T::NAME, i, ma.get_row(i).vec));
+        }
+    }
+    for j in 0..k {
+        let col = ma.get_col(j).vec;
+        if col.len() != r || (0..r).any(|i| col[i] != T::from_i(a[i][j])) {
+            return Err(format!("{} get_col({}) = {:?}", T::NAME, j, col));
+        }
+    }
+    eq(&ma, &a, r, k, "operand A after the by-reference operations")?;
+    eq(&mb, &b, k, c, "operand B after the by-reference operations")?;
+    // identity
+    let n = r.max(1);
+    let id = Matrix::<T>::eye(n);
+    let ide: Vec<Vec<i64>> = (0..n).map(|i| (0..n).map(|j| (i == j) as i64).collect()).collect();
+    eq(&id, &ide, n, n, "eye(n)")?;
+    Ok(())
+}
+
 impl Prop for C03 {
     fn id(&self) -> &'static str {
         "C03"
@@ -751,7 +887,7 @@ impl Prop for C03 {
          row/column get/set for every column index, swap/delete/fill*/fill_band for every offset -9..9, resize to every target shape <= 8 (thorough) or a stride of them (quick), clear) \
          compared entry-by-entry and by shape with a Vec<Vec<Rat>> model; (1) histories of <= 40 editing steps on one matrix against the model, full comparison \
          (shape, numel, every entry, every row and column getter) after every step; (2) norms of integer-valued f64 matrices (norm_1/inf/max exact, norm_p/frob vs double-double) and f64*Matrix; \
-         (3) data-movement histories (element/row/column writes, swap_rows, swap_elem, delete_row incl. the last row, resize, transposes, fill_band, clone) on f64 matrices with non-dyadic mixed-magnitude values, compared bitwise after every step together with norm_max/1/inf/frob of the current matrix; \
+         (2b) the arithmetic of (1) for Matrix<f64> and Matrix<i64> on small integers against an i64 model (all operator forms, compound assignments, products with matrices and vectors, transposes, row/column getters, eye); (3) data-movement histories (element/row/column writes, swap_rows, swap_elem, delete_row incl. the last row, resize, transposes, fill_band, clone) on f64 matrices with non-dyadic mixed-magnitude values, compared bitwise after every step together with norm_max/1/inf/frob of the current matrix; \
          in (1) and (3) the matrix must also compare == to a freshly built matrix with the same entries. \
          Non-trivial: algebra with r != c or an empty dimension; history of >= 5 steps with a shape-changing step followed by a row/column operation; \
          norms of a non-square non-empty matrix. distinct = distinct decoded choice sequence."
@@ -791,7 +927,14 @@ impl Prop for C03 {
             0 => algebra(case),
             1 => history(case),
             2 => norms(case),
-            _ => history_f64(case),
+            _ => {
+                // (a new choice drawn after the family selector: the other families decode as before)
+                match case.src.below(3) {
+                    0 => algebra_machine::<f64>(case),
+                    1 => algebra_machine::<i64>(case),
+                    _ => history_f64(case),
+                }
+            }
         };
         match r {
             Ok(()) => Outcome::Pass,
